@@ -131,6 +131,10 @@ def step (st : St) (line : String) : IO St := do
     let ok := match Hex.parseDouble hm, Hex.parseDouble hp, Hex.parseDouble km, Hex.parseDouble kp with
       | some a, some b, some c, some d => closeTo a ehm ∧ closeTo b ehp ∧ closeTo c ekm ∧ closeTo d ekp
       | _, _, _, _ => false
+    -- the expected values are differences of the grid's OWN coordinate arrays (no model involved): a disagreement is the property's
+    -- clause "neighbour and spacing queries agree with the coordinate arrays" failing on the implementation
+    if !ok then
+      IO.println s!"ORACLE C17 neighbour distances of node ({i},{j}) do not agree with the grid's own coordinate arrays: reported h-={hm} h+={hp} k-={km} k+={kp} (hex), arrays give {ehm} {ehp} {ekm} {ekp}; grid={repr g} radii={st.radii.toList.take 6}… angles={st.angles.toList.take 6}…"
     let stats ← check st.stats ok fun _ => s!"distances grid={repr g} i={i} j={j}"
     return { st with stats := stats }
   | ["E"] => return st
